@@ -125,6 +125,7 @@ func cmdCheck(args []string) int {
 	var results []*OblResult
 	var funcsDone []string
 	dropped := map[string]int{}
+	usedContracts := map[string]bool{}
 	broken := []string{}
 
 	prog, err := loadProgram()
@@ -167,6 +168,9 @@ func cmdCheck(args []string) int {
 		}
 		for k, v := range vc.dropped {
 			dropped[k] += v
+		}
+		for k := range vc.usedContracts {
+			usedContracts[k] = true
 		}
 		jobs = append(jobs, job{key, vc})
 		funcsDone = append(funcsDone, key)
@@ -318,6 +322,25 @@ func cmdCheck(args []string) int {
 	}
 	sort.Strings(dl)
 	cov["dropped_by_translation"] = dl
+	// callee contracts relied upon at call sites but not verified by this check
+	var assumedC []string
+	for k := range usedContracts {
+		verified := false
+		for _, fk := range funcsDone {
+			if fk == k {
+				verified = true
+			}
+		}
+		if !verified {
+			note := " (verified by another property's check or listed as trusted)"
+			if fi := byKey[k]; fi != nil && fi.Spec != nil && fi.Spec.Trusted {
+				note = " (external function: contract assumed)"
+			}
+			assumedC = append(assumedC, k+note)
+		}
+	}
+	sort.Strings(assumedC)
+	cov["callee_contracts_assumed_here"] = assumedC
 	if len(side) > 0 {
 		var bl []any
 		for _, s := range side {
